@@ -173,6 +173,12 @@ func regStd() {
 	regEnv("(*golang.org/x/oauth2.Config).AuthCodeURL", "oauth2 Config.AuthCodeURL(state): uninterpreted function of (config, state)", func(ex *Executor, st *State, c *callCtx) []callResult {
 		return one(st, App("authcodeurl", SStr, ex.asTerm(st, c.Args[0]), ex.asTerm(st, c.Args[1])))
 	})
+	regEnv("(*golang.org/x/oauth2.Config).Exchange", "oauth2 Config.Exchange(ctx, code): arbitrary (token, error); nil error comes with a non-nil token", func(ex *Executor, st *State, c *callCtx) []callResult {
+		tok, err := ex.freshRef(st, "token"), ex.freshErr(st, "exchange")
+		st.Fact(Implies(isNilT(err), nonNil(tok)))
+		st.Emit("CallFuncValue", append([]Value{StrLit("oauth2.Exchange")}, c.Args...), []Value{tok, err}, ex.pos(c.Pos))
+		return one(st, &TupleV{V: []Value{tok, err}})
+	})
 	regEnv("sort.SearchStrings", "sort.SearchStrings(a, x): some index in [0, len(a)] (binary search result not modelled further)", func(ex *Executor, st *State, c *callCtx) []callResult {
 		n := ex.Fresh("searchidx", SInt)
 		st.Fact(And(Ge(n, IntLit(0)), Le(n, ex.lenOf(st, c.Args[0]))))
